@@ -33,14 +33,15 @@ def run_models(ctx):
         lambda: solo(ctx, 'solo_qsbr', 'QSBRSolo', RM.qs_consts(MaxFlush=1), 60),
         lambda: solo(ctx, 'solo_hazarderas', 'HazardErasSolo', RM.he_consts(MaxOps=1 if q else 2), 60),
         lambda: solo(ctx, 'solo_epochbased', 'EpochBasedSolo', RM.eb_consts(MaxOps=1 if q else 2, MaxFlush=1), 80),
-        # stamp_it::thread_order_queue at access grain: push / remove (every guard acquisition and release of stamp_it) finish alone from every reachable
-        # state - 7.1 M states when complete (thorough); the quick tier explores breadth-first for a few minutes and records the run as partial
-        lambda: solo(ctx, 'solo_stampitqueue', 'StampItQueueSolo', RM.siq_consts(), 60, workers=8, tmo=300 if q else 3000),
-        # ... and without the helping CAS that completes a pending stamp a leaving thread waits for the stopped pusher (seeded change c16_5)
-        lambda: solo(ctx, 'solo_toggle_stampitqueue_no_pending_help', 'StampItQueueSolo', RM.siq_consts(ClearPending=False), 60, workers=8, tmo=420 if q else 3000, expect='violation'),
         # mechanism toggles: waiting instead of helping must be seen as a solo thread that does not finish
         lambda: solo(ctx, 'solo_toggle_seqlock_1slot', 'SeqlockSoloAll', P14.mc_consts(Slots=1, MaxWrites=1, MaxLoads=1), 16, expect='violation'),
         lambda: solo(ctx, 'solo_toggle_vyukov_strong', 'VyukovBoundedSoloAll', QM.vy_consts(MaxPush=2, MaxPop=1), 12, expect='violation'),
     ]
+    if not q:
+        # stamp_it::thread_order_queue at access grain: push / remove (every guard acquisition and release of stamp_it) finish alone from every reachable
+        # state - 7.1 M states, thorough tier only (the quick tier has the solo probes of the real code inside release / acquire, c16.PROBES)
+        jobs.append(lambda: solo(ctx, 'solo_stampitqueue', 'StampItQueueSolo', RM.siq_consts(), 60, workers=10, tmo=3000))
+        # ... and without the helping CAS that completes a pending stamp a leaving thread waits for the stopped pusher (seeded change c16_5)
+        jobs.append(lambda: solo(ctx, 'solo_toggle_stampitqueue_no_pending_help', 'StampItQueueSolo', RM.siq_consts(ClearPending=False), 60, workers=10, tmo=3000, expect='violation'))
     run_parallel(jobs, maxw=4)
     ctx.samples.append({'model': 'ChaseLevSolo', 'constants': ctx.mc[0]['consts']})
